@@ -1,3 +1,4 @@
+import StockpylModel.Props.MP
 import StockpylModel.Lemmas.Sim
 /-!
 # C04 — every order follows the node's inventory policy
